@@ -286,6 +286,33 @@ where
                 }
                 ctx.count("noise_real_runs");
                 ctx.count_n("noise_real_nonzero_coordinates", nonzero);
+                // Independence across calls and across coordinates ("drawn independently per coordinate"):
+                // two calls returning the SAME noise vector, or one call returning the same value in every
+                // coordinate, is an event of probability <= p(0)^k <= (1/(2*scale))^k for k compared
+                // coordinates. It is only asserted when that bound is below 2^-64, so an honest sampler
+                // cannot trip it in any feasible number of runs.
+                let n1: Vec<BigInt> = field_to_ints::<T::Field>(sh1.as_ref()).iter().zip(&s1).map(|(a, b)| centered(submod(*a, *b, fp), fp)).collect();
+                let n2: Vec<BigInt> = field_to_ints::<T::Field>(sh2.as_ref()).iter().zip(&s2).map(|(a, b)| centered(submod(*a, *b, fp), fp)).collect();
+                let s_floor = want_scale.floor().to_integer();
+                let lb = if s_floor.is_zero() { 0 } else { (s_floor * 2u8).bits() - 1 };
+                if lb * len as u64 >= 64 {
+                    ctx.count("noise_independence_pairs_checked");
+                    if n1 == n2 {
+                        ctx.violation(format!("noise|{kind}|same-noise-across-calls"),
+                            "two successive add_noise_to_agg_share calls (two aggregators' shares) added the identical noise vector: noise is not drawn independently",
+                            wit(json!({"noise_vector": n1.iter().map(|x| x.to_string()).collect::<Vec<_>>(), "scale": qs(&want_scale), "probability_bound_log2": -((lb * len as u64) as i64)})));
+                    }
+                }
+                if len >= 2 && lb * (len as u64 - 1) >= 64 {
+                    ctx.count("noise_independence_vectors_checked");
+                    for n in [&n1, &n2] {
+                        if n.iter().all(|x| x == &n[0]) {
+                            ctx.violation(format!("noise|{kind}|same-noise-across-coordinates"),
+                                "every coordinate of one call received the same noise value: noise is not drawn independently per coordinate",
+                                wit(json!({"noise_vector": n.iter().map(|x| x.to_string()).collect::<Vec<_>>(), "scale": qs(&want_scale)})));
+                        }
+                    }
+                }
             }
         }
     }
